@@ -555,7 +555,7 @@ class World (object):
       self.fail(c, t, self.subject(wid, True)); return
     exp = [(n, g, True) for (n, g) in m.reg_calls]
     if self.cr_log != exp:
-      self.fail("component-registered-event", "ComponentRegistered log %s, registrations %s" % (self.cr_log, exp)); return
+      self.fail("component-registered-event", "ComponentRegistered log %s, registrations %s" % (self.cr_log, exp), "mismatch"); return
     for c, t in m.end_of_op():
       self.fail(c, t, self.life_feature(c)); return
     if m.starting and m.quit_pending and not self.threads:
